@@ -268,8 +268,11 @@ def replay(path: str) -> int:
     for req in rp["history"]:
         o = C.CompileOptions(**req["opts"]) if req["opts"] is not None else None
         ob = dataclasses.asdict(o) if o is not None else None
-        last = norm(C.compile_code(copy.deepcopy(req["src"]), o))
+        given = copy.deepcopy(req["src"])
+        last = norm(C.compile_code(given, o))
         if o is not None and dataclasses.asdict(o) != ob:
+            bad = True
+        if given != req["src"]:          # the source mapping handed to compile_code was modified
             bad = True
     f = fresh_result(rp["history"][-1], 1)
     if bad or f != last:
